@@ -21,7 +21,7 @@ func init() {
 	core.Register(&core.Check{
 		ID:          "C05",
 		Level:       "exploration",
-		Rule:        "a valid generated base program (effects at the very start and in every block, functions, an event handler, graphics calls) plus exactly one rule-breaking edit from a catalogue of 29 edit kinds (undeclared/unused variable, variable of a sibling if-branch, redeclaration incl. parameters, parameter without the colon between name and type, loop variables, built-in globals and function names, type mismatches, argument counts, missing return at the end and in a single branch of an if/else-if/else chain, unreachable code (directly after the terminating statement and after comment / blank lines), break outside a loop, return value in a procedure/handler/top level, bare return in a function, unknown function, call of a procedure used as a value (element, map value, operand, argument, declaration), stray tokens after statements and after every kind of end, two statements on one line, non-bool condition), applied at every line where the rule applies; each case runs in-process through Evaluator.Run with the recording platform and, sampled, through the real `evy run` (with and without --svg-out). distinct = distinct (edit kind, line kind, error message shape)",
+		Rule:        "a valid generated base program (effects at the very start and in every block, functions, an event handler, graphics calls) plus exactly one rule-breaking edit from a catalogue of 33 edit kinds (undeclared/unused variable, variable of a sibling if-branch, redeclaration incl. parameters, parameter without the colon between name and type, loop variables, built-in globals and function names, type mismatches, argument counts, missing return at the end and in a single branch of an if/else-if/else chain, unreachable code (directly after the terminating statement and after comment / blank lines), break outside a loop, return value in a procedure/handler/top level, bare return in a function, unknown function, call of a procedure used as a value (element, map value, operand, argument, declaration), stray tokens after statements, after func / on headers (also after a variadic marker) and after every kind of end, assignment to a character of a string element, anonymous handler parameter of the wrong type, two statements on one line, non-bool condition), applied at every line where the rule applies; each case runs in-process through Evaluator.Run with the recording platform and, sampled, through the real `evy run` (with and without --svg-out). distinct = distinct (edit kind, line kind, error message shape)",
 		Assumptions: []string{"base programs are produced by the C10 generator (accepted by construction; a rejected base is reported as a harness failure)"},
 		NeedsEvy:    true,
 		NumCases: func(tier string) int {
@@ -197,6 +197,9 @@ func c05Edits() []c05Edit {
 		ins("procedure-call-as-value", "print [1 (noret_q)]+[2]", func(l c05Line) bool { return l.kind == "decl" || l.kind == "end" }),
 		ins("procedure-call-as-value", "pv_q := (noret_q)", any),
 		ins("procedure-call-as-value", "print (noret_q)", func(l c05Line) bool { return l.kind == "decl" || l.kind == "end" }),
+		ins("assign-to-string-element", "sarr_q[0][1] = \"x\"", func(l c05Line) bool { return l.kind == "decl" || l.kind == "end" }),
+		ins("assign-to-string-element", "smap_q.name[0] = \"x\"", func(l c05Line) bool { return l.kind == "assign" || l.kind == "end" }),
+		ins("assign-to-string-element", "smap_q[\"name\"][-1] = \"x\"", func(l c05Line) bool { return l.kind == "call" }),
 		ins("redeclare-builtin-global", "err := true", any),
 		ins("redeclare-function-name", "pnum := 1", any),
 		ins("assign-to-function", "pnum = 1", any),
@@ -331,6 +334,24 @@ func c05Edits() []c05Edit {
 			}
 			return "", false
 		}},
+		{"stray-after-header", func(ls []c05Line, i int) (string, bool) {
+			// text after the parameters of a func / on line, also after the variadic marker
+			if ls[i].kind != "func" && ls[i].kind != "on" {
+				return "", false
+			}
+			tail := []string{" )", " ... junk", "... press any key", " ]", " 12 \"abc\"", " ... )"}[i%6]
+			if ls[i].kind == "func" && strings.HasPrefix(tail, "...") && strings.Count(ls[i].text, ":") != 1 {
+				tail = " )" // a variadic marker is legal after a single parameter only; keep exactly one broken rule
+			}
+			return replaceLine(ls, i, ls[i].text+tail), true
+		}},
+		{"handler-signature-mismatch", func(ls []c05Line, i int) (string, bool) {
+			// an anonymous parameter must still have the type of the event's signature
+			if ls[i].kind != "on" || !strings.HasPrefix(strings.TrimSpace(ls[i].text), "on key ") {
+				return "", false
+			}
+			return replaceLine(ls, i, ls[i].indent+"on key "+[]string{"_:num", "_:[]string", "_:bool", "_:any"}[i%4]), true
+		}},
 		{"stray-after-end", func(ls []c05Line, i int) (string, bool) {
 			if ls[i].kind != "end" {
 				return "", false
@@ -365,7 +386,7 @@ func c05Base(c *core.Ctx) string {
 	chain, _ := returnPathsSource(c.Rng, n, nil, []string{"num", "string"}[c.Rng.Intn(2)])
 	chain = strings.Replace(chain, "return ", "return  ", -1) // marks the branch returns for the edit catalogue
 	// a procedure (no return value): its call is a statement, never a value
-	proc := "func noret_q\n    print \"noret\"\nend\nanyq:any\nanymap_q := {a:true b:1}\nprint anyq anymap_q\n"
+	proc := "func noret_q\n    print \"noret\"\nend\nsarr_q := [\"abc\" \"de\"]\nsmap_q := {name:\"xyz\"}\nprint sarr_q smap_q\nanyq:any\nanymap_q := {a:true b:1}\nprint anyq anymap_q\n"
 	return head + base + chain + proc + tail
 }
 
